@@ -268,6 +268,30 @@ func record(args []string) error {
 	}
 	calls, accP, accE := 0, 0, 0
 	dd := vh.NewDedup()
+	// Single-byte substitutions of canonical names (c04.ForEachSubst), through
+	// both decoders: judged here by the statement's relations, every conforming
+	// observation logged for TLC (DecodePrefix / Extract of Arpa.tla).
+	substAcc := 0
+	nSubst := c04.ForEachSubst(func(_, s string) {
+		dd.Add([]byte(s))
+		dom := domainOK(s)
+		for _, fn := range []string{fnPrefix, fnExtract} {
+			calls++
+			what, d := judge(fn, s, nil)
+			if what != "" {
+				res.Mismatch(c04.Key(fn, s), what, d)
+				continue
+			}
+			op := "pfx"
+			if fn == fnExtract {
+				op = "ext"
+			}
+			if d.Got.Ok {
+				substAcc++
+			}
+			tr.Emit(c04.EventOf(op, s, dom, d.Got))
+		}
+	})
 	for i := 0; i < total; i++ {
 		log := i%stride == 0
 		p := randPrefix(rng)
@@ -348,7 +372,8 @@ func record(args []string) error {
 		return err
 	}
 	return res.Close(map[string]any{"cases": total, "calls": calls, "events": tr.N,
-		"edited_prefix_accepts": accP, "edited_extract_accepts": accE, "distinct_nontrivial": dd.N()})
+		"edited_prefix_accepts": accP, "edited_extract_accepts": accE, "distinct_nontrivial": dd.N(),
+		"subst_inputs": nSubst, "subst_accepts": substAcc})
 }
 
 // ------------------------------------------------------------ probe (--replay)
